@@ -30,7 +30,7 @@ pub fn property() -> Property {
             format!("a column whose spread (population std / range / max|.|) is positive but <= {}*eps in absolute terms falls into linfa's abs_diff_eq!(spread, 0) guard and is not judged for its normalisation post-condition (domain limit, DESIGN C16 R); exactly constant columns are judged as constant", linear::GUARD_FACTOR),
             "constant columns: standard scaling must use scale exactly 1 (centred only), min-max must map them to the range minimum, max-abs must leave an all-zero column zero (linfa doc comments and unit tests)".into(),
             "scales() of a fitted linear scaler must be positive (documented as the inverse of a standard deviation / range / max |.|)".into(),
-            "generated entries are 0 or have magnitude within about 3e-13..7e12 (f32: ..7e9), so sums of squares neither overflow nor underflow; beyond that range NormScaler::l2 and the variances are limited by plain float overflow/underflow, which is not tested".into(),
+            "generated entries are 0 or have magnitude within about 3e-13..7e12 (f32: ..7e9); the norm sub-check additionally scales about a third of the rows of 40 % of its cases down to the subnormal range and its borders (largest |entry| around MIN_POSITIVE, around 1/MAX where a reciprocal of the norm overflows, 1e-310, 1e-320, 5e-324; f32 1e-38..1.4e-45) and to the square root of MIN_POSITIVE. Finite output is demanded for every row. Unit norm and row/norm are demanded with the ordinary tolerance for every non-zero row under L1 and Max (sums and maxima of subnormals are exact, the quotient of two exact operands is correctly rounded and normal, so no extra slack is needed) and under L2 only where sum(y^2) >= 8*MIN_POSITIVE of the element type: below that the squares underflow (the computed norm loses relative accuracy and reaches exactly 0 for subnormal rows, which linfa treats like an all-zero row), the L2 norm is not representable by the arithmetic and only finiteness is demanded. Large magnitudes near overflow are not generated".into(),
             format!("whitening is judged only on training data with sample-covariance eigenvalues lambda_min > 0, sqrt((n-1) lambda_min) >= {:e} and lambda_max <= {:e} (linfa clamps singular values / inverse roots at the absolute value 1e-8; data near the clamp are a stated domain limit), and only where the covariance tolerance {}*eps*(n+p)*p*cond + 4*(32*eps*max|x|/sqrt(lambda_min))^2 is <= {:e}; other cases are counted as not judged", whiten::CLAMP_SINGULAR_MIN, whiten::CLAMP_EIGEN_MAX, whiten::K_COV, whiten::COV_TOL_MAX),
             "a covariance deviation of PCA/ZCA whitening is attributed to the known sporadic non-convergence of linfa-linalg's SVD (signature whiten:svd-sporadic-inaccuracy) only if the returned matrix still has the form the formula guarantees whatever the SVD returns (ZCA symmetric, PCA rows mutually orthogonal) and a fresh fit on at least one re-presentation of the same data (features rotated by 1..p-1 or reversed, rows reversed, other storage order; never re-centred or rescaled) whitens within tolerance. Argument: a wrong formula (n for n-1, missing rotation, missing or wrong centring) yields a transform that is a function of the exact sample covariance, equivariant under these permutations, so its deviation is the same on every presentation and can never be cured by one; every other deviation, all Cholesky and all p = 1 deviations are whiten:covariance-not-identity".into(),
             "row selection must commute bit-for-bit for the element-wise scalers (same arithmetic on both sides, NaNs identified); for whitening (a matrix product) within twice the dot-product tolerance".into(),
@@ -55,7 +55,7 @@ pub fn property() -> Property {
                 ]),
             prop_sub("norm", 80_000, 800_000, |t: Tier| gens::norm_cases(t), norm::check)
                 .chunks(8)
-                .require(&["has_zero_row", "norm_l1", "norm_l2", "norm_max", "elem_f32", "elem_f64"]),
+                .require(&["has_zero_row", "norm_l1", "norm_l2", "norm_max", "elem_f32", "elem_f64", "reciprocal_of_row_norm_overflows", "row_norm_subnormal", "l2_squares_underflow_unit_norm_not_judged"]),
             enum_sub("rejects", |_t: Tier| rejects::cases(), rejects::check).chunks(1),
         ],
     }
